@@ -116,14 +116,14 @@ func (c *DefaultMatcher) Match(args []reflect.Value) bool {
 	if c.isMethod {
 		args = args[1:]
 	}
-	if c.isVariadic {
-		// 可变参数需要展开参数数组
-		expandArgs := make([]reflect.Value, 0)
-		for _, v := range args {
-			rv := reflect.ValueOf(v.Interface())
-			for i := 0; i < rv.Len(); i++ {
-				expandArgs = append(expandArgs, rv.Index(i))
-			}
+	if c.isVariadic && len(args) > 0 {
+		// 可变参数需要展开参数数组: 只有最后一个参数是可变参数数组, 前面的固定参数原样保留
+		last := len(args) - 1
+		rv := reflect.ValueOf(args[last].Interface())
+		expandArgs := make([]reflect.Value, 0, len(args))
+		expandArgs = append(expandArgs, args[:last]...)
+		for i := 0; i < rv.Len(); i++ {
+			expandArgs = append(expandArgs, rv.Index(i))
 		}
 		args = expandArgs
 	}
